@@ -111,6 +111,19 @@ CLAIMED = {
         "written beyond the announced size (sentinels), success for a=b and for neighbours.",
         "Trusted: TLC, H3Grid transcription, driver. Shortest-ness rests on size = gridDistance+1 together with C09.",
         "DESIGN.md 5/C14"),
+    "C06": (
+        "TLC: reference compaction checked canonical on all subsets of small universes + TLC trace validation of compact/uncompact events",
+        "Compact(S) is defined bottom-up on sets (H3Compact.tla) and, independently, canonical-ness is stated "
+        "declaratively (valid, antichain, no complete sibling set, expands exactly to S); TLC checks the two agree for "
+        "every S built from whole sibling groups plus a partial group under a pentagon base cell. Every recorded "
+        "compactCells call (disks, sub-trees, sub-trees minus leaves, partial sibling groups, pentagon families at depth "
+        "1-3(4), unions, pentagon disks, multi-round sets, globe pieces, sets up to 16807 (thorough 117k) cells; each set in "
+        "sorted, reversed and shuffled order) is validated by TLC: result set is canonical for the input and equals the "
+        "reference; uncompactCells reproduces S, respects the capacity (E_MEMORY_BOUNDS, sentinels, canaries) and rejects "
+        "coarser targets (E_RES_MISMATCH); uncompactCellsSize = sum of closed-form child counts (BigNat).",
+        "Trusted: TLC, driver, ndjson. The implementation-shaped PlusCal model of the hash/probe algorithm "
+        "(arbitrary hash functions) is a growth item.",
+        "DESIGN.md 3.4, 5/C06"),
 }
 
 PENDING_REASON = "check not built yet in this round (work in progress; see DESIGN.md section 10 for the order of work)"
